@@ -13,6 +13,7 @@ import (
 	"time"
 
 	"verifsim/harness"
+	_ "verifsim/props/c12"
 	_ "verifsim/props/c13"
 )
 
